@@ -42,6 +42,7 @@ whose tokens carries a custom verb (`C02_curly_rootverb_witness`: the new scorin
 -/
 import Restful.Lemmas.Classify
 import Restful.Lemmas.StateShape
+import Restful.Lemmas.Translated
 namespace Restful
 namespace Props
 variable (E : ReEnv)
@@ -252,6 +253,9 @@ end C02Example
 -- also: Restful.StateShape.globals_shape
 -- also: Restful.StateShape.consts_shape
 -- also: Restful.StateShape.routing_shape
+
+/-! The regenerated tie (tools/gotrans → Gen/Translated.lean, Lemmas/Translated.lean). -/
+-- also: Restful.Tie.trim_space_cutset
 
 end Props
 end Restful
